@@ -143,10 +143,21 @@ func extractStreamer(root string) (string, map[string]any, error) {
 			}
 		}
 	}
+	// the command is given no WaitDelay: exec.Cmd.Wait then returns only when the copies of both streams have reached
+	// their end (with a WaitDelay the pipes are closed that long after the exit of the child and pending output is lost)
+	waitsAll := true
+	for _, f := range p.files {
+		ast.Inspect(f, func(n ast.Node) bool {
+			if se, ok := n.(*ast.SelectorExpr); ok && se.Sel.Name == "WaitDelay" {
+				waitsAll = false
+			}
+			return true
+		})
+	}
 	lean := fmt.Sprintf("import GoUtils.Model.Streamer\nnamespace GoUtils.Generated.Streamer\nopen GoUtils.Streamer\ndef ok : Bool := true\n"+
 		"def write : WriteFacts := { splitsEachChunkAlone := %s, dropsEmpty := %s }\n"+
-		"def exec : ExecFacts := { startBeforeRun := %s, endAfterRun := %s, endReflectsRunError := %s, startIsOneMessage := %s, outputReadsLogWhateverTheStatus := %s }\nend GoUtils.Generated.Streamer\n",
-		leanBool(splitsAlone), leanBool(dropsEmpty), leanBool(iStart < iRun), leanBool(iRun < iEnd), leanBool(endOK), leanBool(lsOK), leanBool(outOK))
+		"def exec : ExecFacts := { startBeforeRun := %s, endAfterRun := %s, endReflectsRunError := %s, startIsOneMessage := %s, waitsForTheWholeOutput := %s, outputReadsLogWhateverTheStatus := %s }\nend GoUtils.Generated.Streamer\n",
+		leanBool(splitsAlone), leanBool(dropsEmpty), leanBool(iStart < iRun), leanBool(iRun < iEnd), leanBool(endOK), leanBool(lsOK), leanBool(waitsAll), leanBool(outOK))
 	return lean, map[string]any{"outputReadsLogWhateverTheStatus": outOK, "splitsEachChunkAlone": splitsAlone, "dropsEmpty": dropsEmpty, "startBeforeRun": iStart < iRun, "endAfterRun": iRun < iEnd,
 		"endReflectsRunError": endOK, "startIsOneMessage": lsOK}, nil
 }
